@@ -89,6 +89,15 @@ public:
     void
     reset();
 
+#if defined(APACHE_XALAN_C_VERIF)
+    // verification hook: number of strings currently handed out
+    unsigned long
+    verifBusy() const
+    {
+        return static_cast<unsigned long>(m_busyList.size());
+    }
+#endif
+
     class GetAndRelease
     {
     public:
